@@ -487,7 +487,8 @@ def writeFITSTable(filename, table):
         # Cause error columns to always be floats even when they are set to -1
         if name.startswith('err_'):
             fmt = 'E'
-        elif name == 'uuid':
+        elif table[name].dtype.kind in 'SU':
+            # strings: wide enough for the longest entry, not just the first
             fmt = '{0}A'.format(max(len(val) for val in table[name]))
         else:
             fmt = FITSTableType(table[name][0])
